@@ -250,6 +250,8 @@ func NewFullRT(h host.Host, protocolPrefix protocol.ID, options ...Option) (*Ful
 		keyToPeerMap:    make(map[string]peer.ID),
 		bucketSize:      dhtcfg.BucketSize,
 
+		ipDiversityFilterLimit: fullrtcfg.ipDiversityFilterLimit,
+
 		peerAddrs:      make(map[peer.ID][]ma.Multiaddr),
 		bootstrapPeers: bsPeers,
 
@@ -558,6 +560,12 @@ func (dht *FullRT) GetClosestPeers(ctx context.Context, key string) ([]peer.ID, 
 			peerAddrs := dht.peerAddrs[p]
 
 			if dht.ipDiversityFilterLimit > 0 {
+				// First find the IP groups of all the peer's addresses and skip the
+				// peer if one of them is already full; only then count the peer in
+				// its groups. Counting while scanning would count a peer with two
+				// addresses in one group against itself, and would leave a skipped
+				// peer counted in the groups of its earlier addresses.
+				groups := make([]peerdiversity.PeerIPGroupKey, 0, len(peerAddrs))
 				for _, addr := range peerAddrs {
 					ip, err := manet.ToIP(addr)
 					if err != nil {
@@ -567,12 +575,15 @@ func (dht *FullRT) GetClosestPeers(ctx context.Context, key string) ([]peer.ID, 
 					if len(ipGroup) == 0 {
 						continue
 					}
-					if _, ok := ipGroupCounts[ipGroup]; !ok {
-						ipGroupCounts[ipGroup] = make(map[peer.ID]struct{})
-					}
 					if len(ipGroupCounts[ipGroup]) >= dht.ipDiversityFilterLimit {
 						// This ip group is already overrepresented, skip this peer
 						continue PeersLoop
+					}
+					groups = append(groups, ipGroup)
+				}
+				for _, ipGroup := range groups {
+					if _, ok := ipGroupCounts[ipGroup]; !ok {
+						ipGroupCounts[ipGroup] = make(map[peer.ID]struct{})
 					}
 					ipGroupCounts[ipGroup][p] = struct{}{}
 				}
